@@ -85,6 +85,7 @@ def step' (s : St) (toks : List String) : St × List String :=
     | some k => withDump (step s (.commit k))
     | none => (s, ["bad-op"])
   | ["tx"] => withDump (step s .tx)
+  | ["tick"] => withDump (step s .tx)   -- the harness let real time pass (several CommitEvery) instead of calling the commit itself
   | ["apply", ents] => match parseEnts ents with
     | some l =>
       let r := step s (.append l)
